@@ -114,6 +114,9 @@ def gen_plan(run_seed, tier, profile, focus):
     return _gen_rsa_lhw(r, tier, f, focus)
   if profile == "rsa_huge":
     return _gen_rsa_huge(r, tier, f, focus)
+  if profile in ("ec_allcurves", "ecdsa_allcurves"):
+    from dst import engine_a_gen_ec as E
+    return E.gen_allcurves(r, tier, f, focus, profile.split("_")[0])
   if profile == "ecdsa_large":
     from dst import engine_a_gen_ec as E
     return E.gen_ecdsa_large(r, tier, f, focus)
